@@ -514,11 +514,11 @@ func (s *configurationStore) populate(ctx context.Context, configuration *config
 }
 
 func (s *configurationStore) getCommitted(ctx context.Context, id configapi.ConfigurationID) (_map.Map[string, *configapi.PathValue], error) {
-	return s.getTarget(ctx, s.committed, id)
+	return s.getTarget(ctx, s.committed, id, "")
 }
 
 func (s *configurationStore) getApplied(ctx context.Context, id configapi.ConfigurationID) (_map.Map[string, *configapi.PathValue], error) {
-	return s.getTarget(ctx, s.applied, id)
+	return s.getTarget(ctx, s.applied, id, "-applied")
 }
 
 func (s *configurationStore) store(ctx context.Context, store _map.Map[string, *configapi.PathValue], values map[string]*configapi.PathValue) error {
@@ -553,7 +553,7 @@ func (s *configurationStore) store(ctx context.Context, store _map.Map[string, *
 func (s *configurationStore) getTarget(
 	ctx context.Context,
 	targets map[configapi.ConfigurationID]_map.Map[string, *configapi.PathValue],
-	id configapi.ConfigurationID) (_map.Map[string, *configapi.PathValue], error) {
+	id configapi.ConfigurationID, suffix string) (_map.Map[string, *configapi.PathValue], error) {
 	s.mu.RLock()
 	target, ok := targets[id]
 	s.mu.RUnlock()
@@ -570,7 +570,7 @@ func (s *configurationStore) getTarget(
 	}
 
 	var err error
-	target, err = _map.NewBuilder[string, *configapi.PathValue](s.client, fmt.Sprintf("configurations-%s", id)).
+	target, err = _map.NewBuilder[string, *configapi.PathValue](s.client, fmt.Sprintf("configurations-%s%s", id, suffix)).
 		Tag("onos-config", "path-value").
 		Codec(types.Proto[*configapi.PathValue](&configapi.PathValue{})).
 		Get(ctx)
